@@ -20,6 +20,14 @@ CHECKS = {
          "Invariant over generated histories: after every operation the extent invariants (alignment, disjointness, exact partition of the allocated area into live extents and tracked free extents, merged holes, placement-into-free-space rule) are evaluated on the real layout through read-only accessors.",
          "Trusts: hook H2 accessors expose the real pending-hole/reservation maps; invariants are checked at quiescence only (single-threaded histories).",
          "property-based invariant checking over generated operation histories", "DESIGN.md §4 C02, §3 E1"),
+ "C03": ("E3-vecmodel", "exploration",
+         "Model-based stateful property test over a 35-entry (format x element type) matrix: generated op lists are executed against the real vector and a Vec<Option<T>> model, compared bit-exactly after every step (len, all elements incl. deleted slots, holes, stamp), plus a differential run of the same ops on a second format. Held on everything explored.",
+         "Trusts the model and the deterministic value generator; reset_unsaved and rollback are not part of this property's op set.",
+         "stateful model-based + differential property testing (proptest)", "DESIGN.md §4 C03, §3 E3"),
+ "C04": ("E3-vecmodel", "exploration",
+         "Model-based property test of commit/rollback histories: a snapshot tree plus a model of the change-record directory predicts the exact state (contents, deleted slots, stamp) after every commit, rollback(), rollback_before(s), re-import and continuation, for all formats and retention settings 1..12.",
+         "Rollbacks are issued from clean committed states only and no plain write() happens between commits (as the property states); trusts the snapshot model.",
+         "stateful model-based property testing (proptest) with snapshot-tree oracle", "DESIGN.md §4 C04, §3 E3"),
 }
 WIP = "check not built yet in this session (work in progress, see DESIGN.md §4 for the planned generated-input check)"
 
@@ -44,6 +52,7 @@ for p in props:
         na.append({"property_id": pid, "reason": WIP})
 
 ENGINES = [
+ {"name": "E3-vecmodel", "path": "harness/src/vecmodel", "serves_properties": ["C03", "C04", "C07", "C08", "C13", "C14", "C16", "C20"], "kind_free_text": "vector op language + Vec<Option<T>> reference model + snapshot tree for rollback, generic over the format x element-type matrix"},
  {"name": "E1-rawmodel", "path": "harness/src/rawmodel", "serves_properties": ["C01", "C02", "C13", "C05", "C12", "C10"], "kind_free_text": "rawdb op language + byte-vector reference model + extent invariants, driven by proptest"},
 ]
 manifest = {
